@@ -379,7 +379,7 @@ def validate_evidence(ev: dict) -> None:
         raise HarnessError(f"evidence does not validate: {e}") from e
 
 
-def write_evidence(mod, tier: str, seed: int, stats: Stats, wall: float, violations: int, warnings: list[str]) -> str:
+def write_evidence(mod, tier: str, seed: int, stats: Stats, wall: float, violations: int, warnings: list[str], validate: bool = True) -> str:
     cov = {
         "evaluations": stats.evaluations,
         "distinct_cases": len(stats.all_hashes),
@@ -405,7 +405,8 @@ def write_evidence(mod, tier: str, seed: int, stats: Stats, wall: float, violati
         "violations": violations,
     }
     ev = json.loads(json.dumps(ev, default=_json_default))
-    validate_evidence(ev)
+    if validate:  # a run that stops at an early violation may not have explored enough to validate
+        validate_evidence(ev)
     os.makedirs(os.path.join(OUT, "evidence"), exist_ok=True)
     path = os.path.join(OUT, "evidence", f"{mod.ID}.json")
     tmp = path + ".tmp"
@@ -511,10 +512,10 @@ def main(argv: list[str] | None = None) -> int:
     if not total.nt_samples and not total.samples:
         total.samples.append({"note": "no sample retained"})
     try:
-        evp = write_evidence(mod, a.tier, seed, total, wall, nviol, warnings)
+        evp = write_evidence(mod, a.tier, seed, total, wall, nviol, warnings, validate=(rc == 0))
     except HarnessError as e:
         print(f"HARNESS-ERROR property={prop_id}: {e}")
-        return 2 if rc == 0 else rc
+        return 2
     if rc == 1:
         print(f"violation detail: {v.signature} :: {v.detail[:600]}")
         print(f"VIOLATION property={prop_id} replay={path}")
